@@ -108,7 +108,9 @@ ProvenDeadlock(w) ==
 ProvenLeakHang(w) ==
   \E i \in 1..Len(w.holders) : SetOf(w.holders[i][2]) \cap libpipes # {}
 Hung == dog # <<>>
-HangExplained == \A i \in 1..Len(dog) : ProvenDeadlock(dog[i]) \/ ProvenLeakHang(dog[i])
+\* or: the library was blocked reading a pipe whose writing end its own process still held
+ProvenSelfDeadlock(w) == "self_deadlock" \in DOMAIN w /\ w.self_deadlock
+HangExplained == \A i \in 1..Len(dog) : ProvenDeadlock(dog[i]) \/ ProvenLeakHang(dog[i]) \/ ProvenSelfDeadlock(dog[i])
 
 \* ---------------------------------------------------------------- pipelines
 N == cfg.n
